@@ -1352,7 +1352,10 @@ impl Checker {
             }
         };
 
-        let resolved_path = working_dir.join(path);
+        // Normalize so that equivalent spellings of a path share a cache
+        // entry and are recognized by the cycle check. Two files that import
+        // each other through ../ would otherwise grow the path for ever.
+        let resolved_path = crate::path::normalize(working_dir.join(path));
 
         // Check the cache first
         if let Some(cached) = self.shape_cache.borrow().get(&resolved_path) {
